@@ -347,7 +347,11 @@ Section Breach.
   Proof.
     induction us as [|x us IH]; intros t inv inv' t' H Hm; cbn [breach_uuid_loop] in H.
     - inversion H; subst. split; [reflexivity|]. split; [intros y Hy; exact Hy|]. split; [exact Hm|]. split; [apply incl_refl|intros []].
-    - destruct (find_app (db_apps t) x) as [a|] eqn:Ea; [|discriminate].
+    - destruct (find_app (db_apps t) x) as [a|] eqn:Ea.
+      2:{ (* the row is gone when it is loaded: skipped *)
+          destruct (IH t inv inv' t' H Hm) as [Ha2 [Hmono2 [Hm2 [Hincl Hrest]]]].
+          split; [exact Ha2|]. split; [exact Hmono2|]. split; [exact Hm2|]. split; [exact Hincl|].
+          intros [Hx|Hin] a' Hf Hb; [subst x; congruence|apply (Hrest Hin a' Hf Hb)]. }
       destruct (decrypt (a_blob a) d) as [p|] eqn:Ed.
       + destruct (r_handle_breach sc t x d p) as [s t1|s t1] eqn:Eh; [|discriminate]. cbn [bind] in H.
         destruct (handle_breach_outcome t x d p s t1 Eh Hm) as [Ha1 [Hmono1 [Hm1 Hout]]].
@@ -933,10 +937,10 @@ Section Breach.
 
   (* once the status of the penalty is known (accepted or rejected), the rest of
      store_triggered_appointment resolves the appointment *)
-  Definition tail_after (d p : N) (s : cstatus) : prog unit :=
+  Definition tail_after (d p : N) (s : cstatus) : prog bool :=
     s' <- ((if status_accepted s then acq L_db ;;; wr (fun t => r_add_tracker t uuid d p s) ;;; rel L_db else Ret tt) ;;;
            rel L_txindex ;;; rel L_carrier ;;; Ret s) ;;
-    (if status_rejected s' then delete_apps_p [uuid] false else Ret tt).
+    ((if status_rejected s' then delete_apps_p [uuid] false else Ret tt) ;;; Ret true).
 
   Lemma after_status d p s :
     status_accepted s = true \/ status_rejected s = true -> estab memo_ok ge (tail_after d p s).
@@ -960,8 +964,14 @@ Section Breach.
     intros Hu Hb. unfold store_triggered_p. rewrite Hu, Hb.
     destruct (decrypt b d) as [p|] eqn:Ed.
     - unfold store_appointment_p, handle_breach_p, reach_p, send_p.
-      cbn [pbind acq rel act rd wr estab]. intros t _. destruct (w_store_appointment t a) as [[] t1|]; [right|exact I].
-      cbn [estab]. intros t2 _. unfold index_lookup.
+      cbn [pbind acq rel act rd wr estab]. intros t _. unfold store_act.
+      destruct (w_store_ok t a) eqn:Eok.
+      2:{ (* UnknownUser: nothing stored, and there was no row *)
+          rewrite (store_appointment_unknown t a Eok). left. split; [|cbn; auto].
+          left. left. unfold w_store_ok in Eok. rewrite Hu in Eok.
+          destruct (find_app (db_apps t) uuid); [discriminate|reflexivity]. }
+      destruct (w_store_appointment t a) as [[] t1|]; [right|exact I].
+      cbn [pbind estab]. intros t2 _. unfold index_lookup.
       destruct (ti_get (r_index t2) p) as [bh|].
       + destruct (ti_get_height (r_index t2) bh) as [hh|]; [right|exact I].
         apply (after_status d p (ConfirmedIn (Z.to_N hh))). left. reflexivity.
@@ -981,16 +991,19 @@ Section Breach.
       + left. split; [left; left; exact Ef|cbn; auto].
   Qed.
 
-  Lemma stored_row a o :
+  Lemma stored_row a (o : bool -> out) :
     app_uuid a = uuid -> a_blob a = b ->
-    estab (fun _ => True) rowA (store_appointment_p a ;;; Rel L_cache (Ret o)) /\
-    amiss (store_appointment_p a ;;; Rel L_cache (Ret o)).
+    estab (fun _ => True) rowA (ok <- store_appointment_p a ;; Rel L_cache (Ret (o ok))) /\
+    amiss (ok <- store_appointment_p a ;; Rel L_cache (Ret (o ok))).
   Proof.
     intros Hu Hb. unfold store_appointment_p. cbn [pbind acq rel act estab amiss]. eqb_norm. cbv iota. split.
-    - intros t _. destruct (w_store_appointment t a) as [[] t1|] eqn:Es; [|exact I].
-      left. split; [|cbn; auto]. right. exists a. split; [|exact Hb].
-      rewrite (store_appointment_spec t a t1 Es). cbn [db_apps set_db_apps]. rewrite find_app_store, Hu, uuid_eqb_refl. reflexivity.
-    - split; [reflexivity|]. intros _. eexists. reflexivity.
+    - intros t _. unfold store_act. destruct (w_store_ok t a) eqn:Eok.
+      + destruct (w_store_appointment t a) as [[] t1|] eqn:Es; [|exact I].
+        left. split; [|cbn; auto]. right. exists a. split; [|exact Hb].
+        rewrite (store_appointment_spec t a t1 Eok Es). cbn [db_apps set_db_apps]. rewrite find_app_store, Hu, uuid_eqb_refl. reflexivity.
+      + rewrite (store_appointment_unknown t a Eok). left. split; [|cbn; auto].
+        left. unfold w_store_ok in Eok. rewrite Hu in Eok. destruct (find_app (db_apps t) uuid); [discriminate|reflexivity].
+    - split; [reflexivity|]. intros ok. eexists. reflexivity.
   Qed.
 
   Lemma add_outline : apre PA.
@@ -1003,7 +1016,9 @@ Section Breach.
               apply estab_bind; [|intros; exact I]; apply estab_bind; [|intros; exact I];
               apply estab_bind; [|intros; exact I]; apply triggered_resolves; reflexivity).
     all: intros Hn; unfold has_loc in Hn; destruct (ti_get (w_cache tx) loc) as [d|]; [exfalso; apply Hn; discriminate|];
-         cbn [pbind]; apply stored_row; reflexivity.
+         cbn [pbind];
+         match goal with |- context [AddOk ?st ?sg ?av ?e] =>
+           apply (stored_row _ (fun ok : bool => OAddRes (if ok then AddOk st sg av e else AddAuthOrSlots))); reflexivity end.
   Qed.
 
   Lemma J_init : J (init_config t0 [PA; PC]).
